@@ -511,14 +511,15 @@ def reachable_mutable(root):
 
 def iso(a, b):
     """None when b (observed) is isomorphic to a (expected), else the kind of the first difference met:
-    'container-type', 'sharing' (aliasing / cycles) or 'content' (length, keys, order, scalar values).
+    'container-type' (both containers, of different types), 'sharing' (aliasing / cycles) or 'content' (length, keys,
+    order, scalar values, scalar where a container is expected).
     Same types, keys, order, scalars; an object shared in `a` is shared in `b`; two distinct mutable containers of
     `a` are distinct in `b`; members of sets are matched by equality (unordered)."""
     fwd, bwd = {}, {}
 
     def go(x, y):
         if type(x) is not type(y):
-            return 'container-type' if isinstance(x, CONTAINERS) or isinstance(y, CONTAINERS) else 'content'
+            return 'container-type' if isinstance(x, CONTAINERS) and isinstance(y, CONTAINERS) else 'content'
         if not isinstance(x, CONTAINERS):
             return None if x == y else 'content'
         if len(x) != len(y):
